@@ -66,9 +66,15 @@ def synthetic_setup(rng, ncat=6, multi_label=True):
     for i, x in enumerate(cats[:-1]):
         if rng.random() < 0.4:
             outs = rng.sample(cats[i + 1:], min(len(cats) - i - 1, rng.choice([1, 2, 2])))
+            if rng.random() < 0.35:
+                # a unary result that rewrites the category to itself, listed among (often before) the others
+                outs.insert(rng.choice([0, 0, len(outs)]), x)
             utable[x] = [CombinatorResult(cat=c, op_string=f'u{j}{str(x)}', op_symbol=f'<u{j}>', head_is_left=True) for j, c in enumerate(outs)]
     roots = [c for c in cats if rng.random() < 0.5] or [cats[0]]
-    return cats, roots, (lambda x, y: list(table.get((x, y), []))), (lambda x: list(utable.get(x, [])))
+    def unary(x):
+        return list(utable.get(x, []))
+    unary.self_loops = any(r.cat == x for x, rs in utable.items() for r in rs)
+    return cats, roots, (lambda x, y: list(table.get((x, y), []))), unary
 
 
 def run(sents, cats, roots, binary, unary, record=True, **kw):
